@@ -78,6 +78,38 @@ fn check_date(y: i64, m: i64, d: i64) -> CaseResult {
         date.in_leap_year(),
         date.days_in_year()
     );
+    // navigation on the ISO week date itself (next/previous day, first/last day of its week and
+    // of its ISO year) against the reference ISO calendar
+    {
+        let w = date.iso_week_date();
+        let triple = |x: jiff::civil::ISOWeekDate| (x.year() as i64, x.week() as i64, x.weekday().to_monday_zero_offset() as i64);
+        let (iy, iw, _) = rc::iso_week(dn);
+        if dn < rc::DAY_MAX {
+            ensure!(w.tomorrow().ok().map(triple) == Some(rc::iso_week(dn + 1)), "iso-tomorrow", "{date}: {w:?}.tomorrow() = {:?} want {:?}", w.tomorrow(), rc::iso_week(dn + 1));
+        } else {
+            ensure!(w.tomorrow().is_err(), "iso-tomorrow", "{date}: tomorrow() of the last date must fail");
+        }
+        if dn > rc::DAY_MIN {
+            ensure!(w.yesterday().ok().map(triple) == Some(rc::iso_week(dn - 1)), "iso-yesterday", "{date}: {w:?}.yesterday() = {:?} want {:?}", w.yesterday(), rc::iso_week(dn - 1));
+        } else {
+            ensure!(w.yesterday().is_err(), "iso-yesterday", "{date}: yesterday() of the first date must fail");
+        }
+        let day_of = |r: Result<jiff::civil::ISOWeekDate, jiff::Error>| r.ok().map(|x| { let d = x.date(); rc::to_days(d.year() as i64, d.month() as i64, d.day() as i64) });
+        let in_range = |d: i64| (rc::DAY_MIN..=rc::DAY_MAX).contains(&d);
+        for (name, got, want) in [
+            ("iso-first-of-week", day_of(w.first_of_week()), rc::iso_to_days(iy, iw, 0)),
+            ("iso-last-of-week", day_of(w.last_of_week()), rc::iso_to_days(iy, iw, 6)),
+            ("iso-first-of-year", day_of(w.first_of_year()), rc::iso_to_days(iy, 1, 0)),
+            ("iso-last-of-year", day_of(w.last_of_year()), rc::iso_to_days(iy, rc::iso_weeks_in_year(iy), 6)),
+        ] {
+            if in_range(want) {
+                ensure!(got == Some(want), name, "{date}: {w:?}: {name} gives day {got:?} want {want}");
+            } else {
+                ensure!(got.is_none(), name, "{date}: {w:?}: {name} is outside the range and must fail, got day {got:?}");
+            }
+        }
+        ensure!(w.weeks_in_year() as i64 == rc::iso_weeks_in_year(iy) && w.in_long_year() == (rc::iso_weeks_in_year(iy) == 53), "iso-weeks-in-year", "{date}: weeks_in_year {} want {}", w.weeks_in_year(), rc::iso_weeks_in_year(iy));
+    }
     // era view and the with-builders that address a date by ordinal or era: inverses of the accessors
     let (ey, era) = date.era_year();
     let want_era = if y >= 1 { (y, jiff::civil::Era::CE) } else { (1 - y, jiff::civil::Era::BCE) };
